@@ -22,8 +22,17 @@ Pool / history format (plain JSON, integers are identities):
                       "page":cid|null,"title":..,"subline":..,"footnote":..,"source":..,
                       "page_header":..,"page_footer":..,"figure":..}..]}
   history = {"ops":[["construct",slot,did],["encode",slot],["twice",slot],["drop",slot],["lookup",name],
-                    ["measure",{"text":..,"font":..,"font_size":..,"unit":..,"dpi":..}]..],     (public get_string_width)
+                    ["measure",{"text":..,"font":..,"font_size":..,"unit":..,"dpi":..}],        (public get_string_width)
+                    ["fs",{"ev":"write|replace|delete|rename|chdir|touch","d":dir,"n":name id,"c":image id,..}],
+                    ["recreate",cid]..],               (a new, equal-valued component object takes the place of cid)
              "target":did, "reuse":slot|null, "target_twice":bool}
+A pool with a "figfs" entry (`{"ndirs":3,"cwd":dir,"names":[..],"images":[hex..],"files":[[dir,name id,image id]..]}`)
+runs in a directory tree of its own: <root>/d0 … with the listed image files, the process starts in <root>/d<cwd>.
+`RTFFigure` components of such a pool name their files by `"paths":[{"rel":name id,"form":..}|{"abs":dir,"n":name id,
+"form":..}..]` (relative / absolute, str / Path / `./` / `..` spellings).  "fs" operations change the tree or the
+working directory between the library calls; `fresh` / `fresh_many` take the history's "fs" operations as "events",
+apply them to a new tree and construct + encode the target THEN: the reference is the fresh interpreter in the file
+system as it is when the target is encoded (same files, same working directory).
 Components are created once per process and handed to every document that names them: that is the
 sharing the property talks about.
 """
@@ -36,8 +45,10 @@ import io
 import json
 import os
 import re
+import shutil
 import sys
 import tempfile
+import time
 from pathlib import Path
 
 OTHER_KEYS = ("title", "subline", "footnote", "source", "page_header", "page_footer", "page", "figure")
@@ -71,12 +82,125 @@ def make_frame(fr):
     return docgen.make_frame(fr)
 
 
-def build_component(c, workdir):
+
+# ------------------------------------------------------------------ a directory tree of image files (pool["figfs"])
+
+_PICT = re.compile(r"\{\\pict[^ {}]* ([0-9a-fA-F\n]*)\}")
+
+
+class FsWorld:
+    """<root>/d0 … d<ndirs-1> with the pool's image files; the process works in one of them"""
+
+    def __init__(self, spec):
+        self.spec = spec
+        self.root = os.path.realpath(tempfile.mkdtemp(prefix="rtfv_c14fs_"))
+        self.images = [bytes.fromhex(h) for h in spec["images"]]
+        self.names = list(spec["names"])
+        self.by_bytes = {b: i for i, b in enumerate(self.images)}
+        self.old_cwd = os.getcwd()
+        self.tick = 0
+        for d in range(spec["ndirs"]):
+            os.mkdir(self.dir(d))
+        for d, n, c in spec["files"]:
+            with open(self.path(d, n), "wb") as f:
+                f.write(self.images[c])
+        os.chdir(self.dir(spec["cwd"]))
+
+    def dir(self, d):
+        return os.path.join(self.root, f"d{d}")
+
+    def path(self, d, n):
+        return os.path.join(self.dir(d), self.names[n])
+
+    def spell(self, ref):
+        """the path argument as the caller writes it"""
+        form = ref.get("form", "str")
+        if "rel" in ref:
+            n = self.names[ref["rel"]]
+            return Path(n) if form == "Path" else ("./" + n if form == "dot" else n)
+        d, n = ref["abs"], self.names[ref["n"]]
+        full = os.path.join(self.dir(d), n)
+        if form == "Path":
+            return Path(full)
+        if form == "dotdot":
+            return os.path.join(self.dir(d), "..", f"d{d}", n)
+        if form == "sibling":     # a relative spelling of a fixed place (the working directory is always a <root>/d*)
+            return os.path.join("..", f"d{d}", n)
+        return full
+
+    def apply(self, ev):
+        """one file-system event (`Model.World.Fs.step`)"""
+        kind = ev["ev"]
+        if kind == "chdir":
+            os.chdir(self.dir(ev["d"]))
+        elif kind == "write":           # in place: same inode, truncated and rewritten
+            with open(self.path(ev["d"], ev["n"]), "wb") as f:
+                f.write(self.images[ev["c"]])
+        elif kind == "replace":         # atomically: written under another name, then moved over
+            tmp = os.path.join(self.dir(ev["d"]), ".incoming.tmp")
+            with open(tmp, "wb") as f:
+                f.write(self.images[ev["c"]])
+            os.replace(tmp, self.path(ev["d"], ev["n"]))
+        elif kind == "delete":
+            with contextlib.suppress(FileNotFoundError):
+                os.unlink(self.path(ev["d"], ev["n"]))
+        elif kind == "rename":
+            src = self.path(ev["d"], ev["n"])
+            if os.path.exists(src):
+                os.replace(src, self.path(ev["d2"], ev["n2"]))
+        elif kind == "touch":
+            p = self.path(ev["d"], ev["n"])
+            if os.path.exists(p):
+                self.tick += 1
+                t = time.time_ns() + self.tick * 3_000_000_000
+                os.utime(p, ns=(t, t))
+        else:
+            raise ValueError(f"unknown file-system event {kind}")
+
+    def listing(self):
+        """[[dir, name id, image id]] of the tree now, and the working directory"""
+        out = []
+        for d in range(self.spec["ndirs"]):
+            for fn in sorted(os.listdir(self.dir(d))):
+                with open(os.path.join(self.dir(d), fn), "rb") as f:
+                    b = f.read()
+                out.append([d, self.names.index(fn) if fn in self.names else -1, self.by_bytes.get(b, -1)])
+        cwd = os.path.basename(os.getcwd())
+        return dict(cwd=int(cwd[1:]) if cwd[1:].isdigit() else -1, files=sorted(out))
+
+    def pics(self, s):
+        """image ids of the pictures embedded in an RTF string, in order (-1: bytes that are none of the pool's)"""
+        if s is None:
+            return None
+        out = []
+        for m in _PICT.finditer(s):
+            try:
+                out.append(self.by_bytes.get(bytes.fromhex(m.group(1).replace("\n", "")), -1))
+            except ValueError:
+                out.append(-1)
+        return out
+
+    def norm(self, msg):
+        return msg.replace(self.root, "<root>")
+
+    def close(self):
+        with contextlib.suppress(Exception):
+            os.chdir(self.old_cwd)
+        shutil.rmtree(self.root, ignore_errors=True)
+
+
+def open_world(pool):
+    return FsWorld(pool["figfs"]) if pool.get("figfs") else None
+
+
+def build_component(c, workdir, world=None):
     import rtflite as rtf
 
     cls = getattr(rtf, c["cls"])
     kw = {k: _untuple(v) for k, v in c["kw"].items()}
-    if c["cls"] == "RTFFigure":
+    if c["cls"] == "RTFFigure" and "paths" in kw:
+        kw["figures"] = [world.spell(r) for r in kw.pop("paths")]
+    elif c["cls"] == "RTFFigure":
         files = kw.pop("files")
         paths = []
         for f in files:
@@ -174,13 +298,17 @@ def exc_class(e):
     return type(e).__name__
 
 
-def encode_obs(doc, keep=False):
+def encode_obs(doc, keep=False, world=None):
     try:
         with contextlib.redirect_stdout(io.StringIO()):
             s = doc.rtf_encode()
     except Exception as e:  # noqa: BLE001
-        return dict(cls=exc_class(e), msg=str(e)[:200]), None
-    return dict(ok=sha(s), len=len(s), pages=len(_PAGE.findall(s)) + 1), (s if keep else None)
+        msg = str(e) if world is None else world.norm(str(e))
+        return dict(cls=exc_class(e), msg=msg[:200]), None
+    o = dict(ok=sha(s), len=len(s), pages=len(_PAGE.findall(s)) + 1)
+    if world is not None:
+        o["pics"] = world.pics(s)
+    return o, (s if keep else None)
 
 
 def _first_pos(s, token):
@@ -283,9 +411,11 @@ def run_history(task):
 
     pool, hist = task["pool"], task["history"]
     wd = tempfile.mkdtemp(prefix="rtfv_c14_")
+    world = None
     try:
+        world = open_world(pool)
         with contextlib.redirect_stdout(io.StringIO()):
-            comps = [build_component(c, wd) for c in pool["components"]]
+            comps = [build_component(c, wd, world) for c in pool["components"]]
         frames = [make_frame(f) for f in pool["frames"]]
         copies = [f.clone() for f in frames]
         fdig0 = [frame_digest(f) for f in frames]
@@ -304,14 +434,14 @@ def run_history(task):
                 if op[1] not in live:
                     obs.append(dict(kind=kind, missing=True))
                     continue
-                o, _ = encode_obs(live[op[1]])
+                o, _ = encode_obs(live[op[1]], world=world)
                 obs.append(dict(kind=kind, out=o, **internals()))
             elif kind == "twice":
                 if op[1] not in live:
                     obs.append(dict(kind=kind, missing=True))
                     continue
-                a, _ = encode_obs(live[op[1]])
-                b, _ = encode_obs(live[op[1]])
+                a, _ = encode_obs(live[op[1]], world=world)
+                b, _ = encode_obs(live[op[1]], world=world)
                 obs.append(dict(kind=kind, a=a, b=b, **internals()))
             elif kind == "drop":
                 live.pop(op[1], None)
@@ -321,6 +451,17 @@ def run_history(task):
                 obs.append(dict(kind=kind, idx=lookup(op[1])))
             elif kind == "measure":
                 obs.append(dict(kind=kind, **measure(op[1])))
+            elif kind == "fs":
+                world.apply(op[1])
+                obs.append(dict(kind=kind, ev=op[1]["ev"]))
+            elif kind == "recreate":
+                # the caller makes a new, equal-valued component object; documents made from now on get this one
+                try:
+                    with contextlib.redirect_stdout(io.StringIO()):
+                        comps[op[1]] = build_component(pool["components"][op[1]], wd, world)
+                    obs.append(dict(kind=kind, ok=True))
+                except Exception as e:  # noqa: BLE001
+                    obs.append(dict(kind=kind, ok=False, cls=exc_class(e), msg=str(e)[:200]))
         # the target
         tgt = dict()
         doc = None
@@ -334,10 +475,10 @@ def run_history(task):
                 tgt["construct"] = dict(cls=exc_class(e), msg=str(e)[:200])
         if doc is not None:
             tgt["widths"] = doc_widths(doc)
-            tgt["out"], tgt["string"] = encode_obs(doc, keep=True)
+            tgt["out"], tgt["string"] = encode_obs(doc, keep=True, world=world)
             tgt["order"] = doc_heading_order(pool, hist["target"], tgt["string"])
             if hist.get("target_twice"):
-                tgt["out2"], _ = encode_obs(doc)
+                tgt["out2"], _ = encode_obs(doc, world=world)
             tgt.update(internals())
         heap1 = [snapshot(o, c["cls"]) for o, c in zip(comps, pool["components"])]
         fr = []
@@ -346,34 +487,51 @@ def run_history(task):
             fr.append([d0, frame_digest(f) if same else "CHANGED:" + frame_digest(f)])
         return dict(heap0=heap0, heap1=[[h["widths"], h["rest"]] for h in heap1],
                     frames=[frame_cells(c) for c in copies], frame_digests=fr, obs=obs, target=tgt,
-                    lookup_end={c: lookup(c) for c in ("red", "blue")}, hashseed=os.environ.get("PYTHONHASHSEED"))
+                    lookup_end={c: lookup(c) for c in ("red", "blue")}, hashseed=os.environ.get("PYTHONHASHSEED"),
+                    fs_final=None if world is None else world.listing())
     except Exception as e:  # noqa: BLE001  — machinery problem inside the runner
         import traceback
 
         return dict(machinery=f"{type(e).__name__}: {e}", tb=traceback.format_exc()[-1500:])
+    finally:
+        if world is not None:
+            world.close()
+        shutil.rmtree(wd, ignore_errors=True)
 
 
 def run_fresh(req):
-    """construct the target from freshly created, equal-valued objects of its own and encode it"""
+    """construct the target from freshly created, equal-valued objects of its own and encode it — in the file system
+    the history's events lead to (`req["events"]`, applied to a new tree before any library call)"""
     pool = req["pool"]
     dd = pool["docs"][req["target"]]
     wd = tempfile.mkdtemp(prefix="rtfv_c14f_")
-    comps = {}
-    with contextlib.redirect_stdout(io.StringIO()):
-        for i in doc_component_ids(dd):
-            if i not in comps:
-                comps[i] = build_component(pool["components"][i], wd)
-    frames = {}
-    for f, _ in dd["secs"]:
-        if f not in frames:
-            frames[f] = make_frame(pool["frames"][f])
+    world = None
     try:
-        doc = build_doc(dd, comps, frames)
-    except Exception as e:  # noqa: BLE001
-        return dict(construct=dict(cls=exc_class(e), msg=str(e)[:200]))
-    out, s = encode_obs(doc, keep=True)
-    return dict(out=out, string=s if req.get("keep") else None, widths=doc_widths(doc),
-                order=doc_heading_order(pool, req["target"], s), hashseed=os.environ.get("PYTHONHASHSEED"))
+        world = open_world(pool)
+        for ev in req.get("events") or []:
+            world.apply(ev)
+        comps = {}
+        try:
+            with contextlib.redirect_stdout(io.StringIO()):
+                for i in doc_component_ids(dd):
+                    if i not in comps:
+                        comps[i] = build_component(pool["components"][i], wd, world)
+            frames = {}
+            for f, _ in dd["secs"]:
+                if f not in frames:
+                    frames[f] = make_frame(pool["frames"][f])
+            doc = build_doc(dd, comps, frames)
+        except Exception as e:  # noqa: BLE001
+            msg = str(e) if world is None else world.norm(str(e))
+            return dict(construct=dict(cls=exc_class(e), msg=msg[:200]))
+        out, s = encode_obs(doc, keep=True, world=world)
+        return dict(out=out, string=s if req.get("keep") else None, widths=doc_widths(doc),
+                    order=doc_heading_order(pool, req["target"], s), hashseed=os.environ.get("PYTHONHASHSEED"),
+                    fs_final=None if world is None else world.listing())
+    finally:
+        if world is not None:
+            world.close()
+        shutil.rmtree(wd, ignore_errors=True)
 
 
 _POOLS = {}
@@ -381,7 +539,7 @@ _POOLS = {}
 
 def run_fresh_task(task):
     try:
-        return run_fresh(dict(pool=_POOLS[task[0]], target=task[1]))
+        return run_fresh(dict(pool=_POOLS[task[0]], target=task[1], events=task[2] if len(task) > 2 else None))
     except Exception as e:  # noqa: BLE001  — machinery problem inside the runner
         import traceback
 
